@@ -405,6 +405,7 @@ AG = "src/hypergraph/runners/async_/executors/graph_node.py"
 AR = "src/hypergraph/runners/async_/runner.py"
 TA = "src/hypergraph/runners/_shared/template_async.py"
 VARIANTS = [
+    Variant("map-drops-limit-when-it-cannot-bind", TA, replace_once("        try:\n            # Install the shared limiter inside the try", "        if max_concurrency is not None and len(input_variations) == 1:\n            max_concurrency = None\n        try:\n            # Install the shared limiter inside the try"), {"C15.R3"}),
     Variant("bounded-map-raises-last-appended-failure", TA, replace_once("                results = [r for _, r in sorted(zip(order, results_list, strict=False))]\n                if error_handling == \"raise\":\n                    for result in results:\n                        if result.status == RunStatus.FAILED:\n                            raise result.error  # type: ignore[misc]\n", "                results = [r for _, r in sorted(zip(order, results_list, strict=False))]\n                if error_handling == \"raise\":\n                    for result in results_list:\n                        if result.status == RunStatus.FAILED:\n                            raise result.error  # type: ignore[misc]\n"), {"C15.R6"}),
     Variant(
         "graphnode-under-permit",
